@@ -223,7 +223,8 @@ static void applyWorld(SimFs& fs, const World& from, const World& to) {
   for (auto& [p, tags] : to.cgs) {
     fs.mkcg(p);
     for (auto& n : {std::string("user.f"), std::string("user.g")}) {
-      if (tags.count(n)) fs.setXattr(p, n, "1"); else fs.clearXattr(p, n);
+      // the attribute counts by its presence, whatever its value - also an empty one (setfattr -n NAME without -v)
+      if (tags.count(n)) fs.setXattr(p, n, (std::hash<std::string>{}(p + n) % 3 == 0) ? "" : "1"); else fs.clearXattr(p, n);
     }
   }
 }
@@ -361,12 +362,14 @@ int main(int argc, char** argv) {
             evEmit(J().str("e", "DropRemove").str("tag", tag));
           } else {
             UnitS u;
-            int nr = 1 + (r.chance(35) ? 1 : 0);
+            int nr = 1 + (r.chance(35) ? 1 : 0) + (r.chance(10) ? 1 : 0);
             std::set<std::string> usedNames;
             for (int q = 0; q < nr; q++) {
               RsS d;
               d.name = r.chance(q == 1 ? 30 : 10) ? "ghost" : cfg[r.upto((int)cfg.size())].name;
-              if (usedNames.count(d.name)) continue;
+              // one file may name the same base twice (e.g. detectors in one entry, actions in another): mostly avoided,
+              // sometimes kept
+              if (usedNames.count(d.name) && !r.chance(40)) continue;
               usedNames.insert(d.name);
               std::string pfx = tag + "." + std::to_string(k) + "." + std::to_string(o) + "." + std::to_string(q);
               if (r.chance(55)) { GroupS g; g.name = pfx + ".g"; int nd = 1 + r.upto(2); for (int z = 0; z < nd; z++) g.dets.push_back({pfx + ".d" + std::to_string(z)}); d.groups.push_back(g); }
